@@ -5,6 +5,7 @@ D="$(cd "$(dirname "$0")" && pwd)"
 cd "$D"
 /venv/bin/python harness/extract.py
 cd lean
-lake build 2>&1 | tail -5
+lake build > .build.log 2>&1 || { tail -40 .build.log; echo "setup: lake build failed"; exit 1; }
+tail -3 .build.log
 test -x .lake/build/bin/pymodel
 echo "setup ok"
